@@ -321,7 +321,9 @@ Inductive op :=
 | OpRaw (command end_tokens : dyn)
 | OpQuit
 | OpStatsRaw (args : list dyn)
-| OpClose.
+| OpClose
+| OpCacheMemlimit (memlimit : dyn)
+| OpShutdown (graceful : dyn).
 
 Definition verb_name (v : Z) : list Z :=
   match v with 0 => L_set | 1 => L_add | 2 => L_replace | 3 => L_append | _ => L_prepend end.
@@ -418,6 +420,14 @@ Definition run_op (c : cfg) (o : op) : M dyn :=
   | OpStatsRaw args =>
       r <-- fetch_cmd c L_stats args false [] None ;; ret (DDict r)
   | OpClose => client_close ;;; ret DNone
+  | OpCacheMemlimit memlimit =>
+      (* the number goes through _fetch_cmd as if it were a key (no prefix); the answer is a bare OK *)
+      mb <-- lift (check_integer c memlimit) ;;
+      fetch_cmd c L_cache_memlimit [DBytes mb] false [] None ;;; ret (DBool true)
+  | OpShutdown graceful =>
+      (* a successful shutdown closes the remote end: MemcacheUnexpectedCloseError is the expected outcome and is swallowed *)
+      mtry (misc_cmd c [L_shutdown ++ (if py_truthy graceful then L_sp_graceful else []) ++ L_crlf] false [] ;;; ret DNone)
+           MemcacheUnexpectedCloseError (fun _ => ret DNone)
   end.
 
 (* a sequence of public calls on one client: the result (or exception) of each *)
